@@ -508,6 +508,9 @@ CheckVisit(i) ==
           IN AllTrue({
                IF okLog(e.log) THEN TRUE ELSE Report(i, "visit-log", [which |-> "Visit", expected |-> exp]) /\ FALSE,
                IF okLog(e.logmut) THEN TRUE ELSE Report(i, "visit-log", [which |-> "VisitMut", expected |-> exp]) /\ FALSE,
+               \* after mutable indexing has left a placeholder in every standard table: the same walks
+               IF okLog(e.log_touched) THEN TRUE ELSE Report(i, "visit-log", [which |-> "Visit after placeholders", expected |-> exp]) /\ FALSE,
+               IF okLog(e.logmut_touched) THEN TRUE ELSE Report(i, "visit-log", [which |-> "VisitMut after placeholders", expected |-> exp]) /\ FALSE,
                IF e.unchanged THEN TRUE ELSE Report(i, "visit-mut-changed", "a counting VisitMut changed the document") /\ FALSE,
                LET q == ParseDocument(e.rewritten.integer) IN
                  IF q.res = "ok" /\ Plain(q.tree) = Rewrite(p.tree, "i", [k |-> "i", neg |-> FALSE, d |-> <<4, 2>>]) THEN TRUE
